@@ -451,9 +451,14 @@ def install_dykstra_logger():
                 out = orig(P2, *a[1:], **kw)
             p = len(P)
             f = sys._getframe(1)
-            c.dykstra_hook(dict(mod=f.f_globals.get("__name__", "?"), line=f.f_lineno, p=p, tol=ba.arguments.get("tol"),
-                                max_iter=ba.arguments.get("max_iter"), calls=ncalls[0], sweeps=(ncalls[0] // p if p else 0),
-                                x0=ba.arguments.get("x0"), out=out, P=P))
+            # a caller that OMITS tol / max_iter asks for the documented defaults (1e-10, 100 - those of dykstra.d_tol / dykstra.max_iters):
+            # what the routine's signature currently says is the thing under test, not the yardstick
+            given = sig.bind(*a, **kw).arguments
+            tol_eff = ba.arguments.get("tol") if "tol" in given else 1e-10
+            mi_eff = ba.arguments.get("max_iter") if "max_iter" in given else 100
+            c.dykstra_hook(dict(mod=f.f_globals.get("__name__", "?"), line=f.f_lineno, p=p, tol=tol_eff,
+                                max_iter=mi_eff, calls=ncalls[0], sweeps=(ncalls[0] // p if p else 0),
+                                x0=ba.arguments.get("x0"), out=out, P=P, tol_given=("tol" in given), max_iter_given=("max_iter" in given)))
             return out
         return dykstra
     BINDINGS["dykstra"] = instrument_function("dykstra", mk, home=dfols.util)
